@@ -162,6 +162,7 @@ func Begin(n int, p Policy) {
 	deadlock = false
 	lockWaits = 0
 	unmanaged = 0
+	onceReset()
 	rng = p.Seed*2862933555777941757 + 3037000493
 	if rng == 0 {
 		rng = 88172645463325252
@@ -180,7 +181,7 @@ func Begin(n int, p Policy) {
 		hotSite = make([]bool, len(Sites))
 		for i, st := range Sites {
 			switch st.Kind {
-			case "global", "sync", "lock":
+			case "global", "sync", "lock", "once":
 				hotSite[i] = true
 			}
 		}
@@ -526,7 +527,15 @@ type Stats struct {
 	YieldsPerG   []uint64
 	SitesCovered int
 	Unmanaged    uint64 // scheduling points reached by goroutines the scheduler does not manage
+	OnceWaits    uint64 // waits for a sync.Once another caller was running
+	OnceFallback uint64 // sync.Once calls left to the real, blocking implementation
 }
+
+// StepNow is the number of scheduling points passed so far (for a progress
+// watchdog on an unmanaged goroutine; the value may be stale).
+//
+//go:norace
+func StepNow() uint64 { return step }
 
 // End disarms the scheduler (called by the harness after joining the callers)
 // and returns what happened.
@@ -534,7 +543,7 @@ type Stats struct {
 //go:norace
 func End() Stats {
 	simActive = false
-	st := Stats{Steps: step, Switches: len(trace), LockWaits: lockWaits, Overrun: overrun, Unmanaged: unmanaged}
+	st := Stats{Steps: step, Switches: len(trace), LockWaits: lockWaits, Overrun: overrun, Unmanaged: unmanaged, OnceWaits: OnceWaits, OnceFallback: OnceFallbacks}
 	st.Trace = append([]TraceEntry(nil), trace...)
 	for i := 0; i < ng; i++ {
 		st.YieldsPerG = append(st.YieldsPerG, gs[i].yields)
